@@ -7,6 +7,7 @@ import (
 	"sort"
 	"strconv"
 	"strings"
+	"sync"
 
 	"0chain.net/core/util/orderbuffer"
 	"verifharness/lib/corr"
@@ -170,9 +171,105 @@ func oracle(ops, outs []string) *corr.Violation {
 	return nil
 }
 
+// stress: concurrent producers (distinct well-formed items) and one consumer on the real buffer. If every method
+// is atomic, then at quiescence the buffer is sorted, nothing is duplicated, and (capacity ≥ everything added)
+// popped ∪ remaining = added. A search over schedules the Go scheduler happens to produce — not a proof.
+func stress(thorough bool, seed int64) []corr.Violation {
+	trials, producers, per := 30, 8, 1500
+	if thorough {
+		trials = 400
+	}
+	for t := 0; t < trials; t++ {
+		total := producers * per
+		ob := orderbuffer.New(total + 10)
+		var wg sync.WaitGroup
+		popped := make(chan orderbuffer.Item, total)
+		stop := make(chan struct{})
+		var cwg sync.WaitGroup
+		cwg.Add(1)
+		panicked := make(chan string, producers+1)
+		go func() {
+			defer cwg.Done()
+			defer func() {
+				if r := recover(); r != nil {
+					panicked <- fmt.Sprint(r)
+				}
+			}()
+			last := int64(-1 << 62)
+			_ = last
+			for {
+				select {
+				case <-stop:
+					return
+				default:
+				}
+				if it, ok := ob.Pop(); ok {
+					popped <- it
+				}
+			}
+		}()
+		for p := 0; p < producers; p++ {
+			wg.Add(1)
+			go func(p int) {
+				defer wg.Done()
+				defer func() {
+					if r := recover(); r != nil {
+						panicked <- fmt.Sprint(r)
+					}
+				}()
+				r := rand.New(rand.NewSource(seed*7919 + int64(t*producers+p)))
+				for k := 0; k < per; k++ {
+					round := int64(r.Intn(total))
+					d := int(round)*producers*per + p*per + k // data determines the round; all items distinct
+					// every item is added exactly once: a repeated add may legitimately be stored twice when another
+					// block of the same round slips in between (the repeat test only looks at the predecessor)
+					ob.Add(round, d)
+				}
+			}(p)
+		}
+		wg.Wait()
+		close(stop)
+		cwg.Wait()
+		close(popped)
+		mk := func(sig, msg string) []corr.Violation {
+			return []corr.Violation{{Signature: "C46:concurrent-" + sig, Message: fmt.Sprintf("trial %d (%d producers x %d adds, 1 consumer): %s", t, producers, per, msg),
+				Ops: []string{fmt.Sprintf("stress seed=%d trial=%d producers=%d per=%d", seed, t, producers, per)}}}
+		}
+		select {
+		case m := <-panicked:
+			return mk("panic", m)
+		default:
+		}
+		seen := map[int]int{}
+		for it := range popped {
+			seen[it.Data.(int)]++
+		}
+		prev := int64(-1 << 62)
+		for i, it := range ob.Buffer {
+			if it.Round < prev {
+				return mk("unsorted", fmt.Sprintf("at quiescence position %d holds round %d after round %d", i, it.Round, prev))
+			}
+			prev = it.Round
+			seen[it.Data.(int)]++
+		}
+		for d, c := range seen {
+			if c > 1 {
+				return mk("duplicate", fmt.Sprintf("item %d present %d times", d, c))
+			}
+		}
+		if len(seen) > total {
+			return mk("extra", "more items than were added")
+		}
+		if len(seen) < total {
+			return mk("lost", fmt.Sprintf("%d of %d distinct items were lost although capacity was never reached", total-len(seen), total))
+		}
+	}
+	return nil
+}
+
 func main() {
 	corr.Main(corr.Prop{
-		ID: "C46", Model: "C46", Gen: gen, Impl: impl, Oracle: oracle,
+		ID: "C46", Model: "C46", Gen: gen, Impl: impl, Oracle: oracle, Stress: stress,
 		Cases: func(th bool) int {
 			if th {
 				return 40000
